@@ -103,7 +103,7 @@ def build_coq():
 def build_driver():
     with Lock("driver"):
         drv = os.path.join(BUILD, "driver", "model_driver")
-        src = [os.path.join(COQ, "model.ml"), os.path.join(VERIF, "driver", "main.ml"), os.path.join(VERIF, "driver", "util.ml")] + [os.path.join(VERIF, "driver", f) for f in os.listdir(os.path.join(VERIF, "driver")) if f.startswith("cmd_")]
+        src = [os.path.join(COQ, "model.ml"), os.path.join(VERIF, "driver", "main.ml"), os.path.join(VERIF, "driver", "util.ml")] + [os.path.join(VERIF, "driver", f) for f in open(os.path.join(VERIF, "driver", "cmds.txt")).read().split()] + [os.path.join(VERIF, "driver", "cmds.txt")]
         if os.path.exists(drv) and all(os.path.getmtime(s) <= os.path.getmtime(drv) for s in src):
             return drv
         run(["sh", os.path.join(VERIF, "driver", "build.sh")])
@@ -114,6 +114,7 @@ OVERLAYS = {
     # harness file -> (package dir in repo, injected name)
     "snaps_trace_test.go": ("snaps", "zz_verif_trace_test.go"),
     "snaps_util_test.go": ("snaps", "zz_verif_util_test.go"),
+    "snaps_json_test.go": ("snaps", "zz_verif_json_test.go"),
 }
 
 
